@@ -45,10 +45,21 @@ ASSUMPTIONS = [
     "generated grammar",
 ]
 STATEMENT_STATUS = {
+    "C01_bufsize_indep / C01_offset_indep / C01_offset_indep_ws": "proved, FULL (every byte string, conformant or damaged, "
+        "odd hex included): the objects read do not depend on the read-buffer size, nor on a token-free prefix (white "
+        "space of every SPC byte, complete comments) in front; checked on the implementation for damaged spellings too",
+    "C01_context_indep": "proved, full for the tokens: behind a spelled value any white-space/delimiter byte but '>' and then "
+                         "ARBITRARY bytes - the token values are ser(value) followed by those of the tail read alone; checked "
+                         "on the real tokenizer (reader:context)",
+    "C01_concat_feed": "proved: when a ends in a complete token the stack parser fed with the tokens of a ++ ws ++ b is in "
+                       "the state reached by feeding the tokens of a, then those of b (uses C14_compositional)",
     "C01_int_token / C01_name_token / C01_string_token (+_eof, _buffered)": "proved: every token-level spelling lexes to "
         "its value from any main-scanner state, at every buffer size",
     "C01_hex_statement": "full statement; FALSE on the code (C01_hex_statement_fails, C01_odd_hex_cex): odd digit "
                          "count, open finding odd-hex-digit; C01_hex_token_partial proved for even counts",
+    "C01_hex_token_code / _buffered / C01_hex_code_even": "proved, every digit count: the code reads the digit pairs and a "
+        "final odd digit as the LOW nibble (codePairUp) at every buffer size; equal to ISO's reading for even counts - "
+        "the open finding is the ONLY deviation of the hex-string reader",
     "C01_nesting": "proved for every clean tree of any depth incl. a bare n g R with any generation (PDFStreamParser: "
                    "flush holds back two trailing integers, PSEOF hand-out)",
     "C01_getobj_nesting / C01_getobj_roundtrip_partial": "proved: n g obj <spelled tree> endobj read by the model of "
@@ -772,6 +783,8 @@ def _run(ctx: C.Ctx) -> None:
             check_mutant(ctx, batch, make_case(rng, value, feats, "stream"), rng)
         if i % 10 == 0:
             check_stream_object(ctx, batch, rng)
+        if i % 5 == 0:
+            check_context(ctx, make_case(rng, value, feats, "stream"), rng)
         if i % 3 == 0:
             check_sequence(ctx, batch, rng, seen)
         if i % 12 == 0:
@@ -779,6 +792,24 @@ def _run(ctx: C.Ctx) -> None:
         if len(batch.req) > 100000:
             batch.flush()
     batch.flush()
+
+
+def check_context(ctx: C.Ctx, case: Case, rng) -> None:
+    """C01_context_indep on the real tokenizer: behind a conformant spelling, any white-space / delimiter byte but `>`
+    and then ARBITRARY bytes - the token values are those of the spelling followed by those of the tail alone."""
+    def values(line: str) -> List[str]:
+        return [w.split(":", 1)[1] for w in line.split(" ") if w != "$" and not w.startswith("!")]
+    sp = case.spelling
+    d = bytes([rng.choice(b"\x00\t\n\x0c\r ()<[]{}/%")])
+    tail = d + bytes(rng.choice(b"()<>[]{}/%#\\ \r\n\x0001a.RtrueG\xff") for _ in range(rng.randint(0, 12)))
+    whole = LEX.impl_lex(sp + tail, rng.choice([1, 2, 3, 7, 4096]))
+    ctx.case((sp, "context", tail), True, branch="reader:context")
+    if whole.rsplit(" ", 1)[-1].startswith("!"):
+        ctx.branch("context:exception")
+        return
+    parts = values(LEX.impl_lex(sp, 4096)) + values(LEX.impl_lex(tail, 4096))
+    if parts != values(whole):
+        ctx.disagree("impl.context", {"spelling": sp.hex(), "tail": tail.hex()}, " ".join(values(whole)), " ".join(parts))
 
 
 def check_stream_object(ctx: C.Ctx, batch: Batch, rng) -> None:
@@ -1015,6 +1046,15 @@ def check_mutant(ctx: C.Ctx, batch: Batch, case: Case, rng) -> None:
         return
     batch.add("model.obj %d %s" % (case.bufsiz, C.hx(data)), "model.obj",
               {"data": data.hex(), "bufsiz": case.bufsiz, "mutant": True}, got)
+    # C01_offset_indep_ws / C01_bufsize_indep on ANY bytes: white space in front and another buffer size change
+    # nothing (the model provably behaves so; a difference means that model and code differ on one of the two)
+    if rng.random() < 0.5:
+        pad2 = bytes(rng.choice(b"\x00\t\n\x0b\x0c\r ") for _ in range(rng.randint(1, 9)))
+        b2 = rng.choice([1, 2, 3, 5, 7, 4096])
+        got3 = read_stream(pad2 + data, b2)
+        ctx.case((data, "mutant-offset", pad2, b2), True, branch="reader:mutant-offset")
+        if got3 != got and not (got3.endswith("!RecursionError") or got3.endswith("!MemoryError")):
+            ctx.disagree("impl.offset", {"data": data.hex(), "pad": pad2.hex(), "bufsiz": [case.bufsiz, b2]}, got, got3)
     if rng.random() < 0.5 and b"stream" not in data and b"obj" not in data:
         got2 = read_getobj(data, case.bufsiz, case.eol, b"")
         pdf, off = getobj_pdf(data, case.eol, b"")
